@@ -376,6 +376,9 @@ package cl
 //@   on-store count#2 count-keyword: keyword == ":count" && now == as(args[pos + 1], slip.Fixnum)
 //@   on-store fromEnd from-end-keyword: keyword == ":from-end" && (now <==> args[pos + 1] != nil)
 //@   on-call ResolveToCaller designator-follows-keyword: $arg1 == args[pos + 1]
+//@   requires zero-vars: sfv.start == 0
+//@   ensures start-nonneg: sfv.start >= 0
+//@   loop pos<len(args)-1: invariant start-nonneg: sfv.start >= 0
 //@ func cl.(*seqFunVars).setKeysIf
 //@   property C14
 //@   on-store test predicate-is-first-argument: true
@@ -409,6 +412,20 @@ package cl
 //@   on-call Call#3 key-gets-window-element: len($arg1) == 1 && $arg1[0] == seq[i] && idof(seq) == old(idof(seq)) && offof(seq) == old(offof(seq)) + sfv.start && in_window(sfv.start + i, sfv, old(len(seq)))
 //@   on-call Call#4 test-gets-item-then-key: len($arg1) == 2 && $arg1[0] == sfv.item && $arg1[1] == key
 //@   on-call ObjectEqual default-test-gets-item-then-key: $arg0 == sfv.item && $arg1 == key
+
+// count: the parsed keywords reach the list scan (start is never negative).
+//@ func cl.(*Count).Call
+//@   property C14
+//@ func cl.(*Count).inList
+//@   property C14
+//@   on-call Call#1 key-gets-window-element: len($arg1) == 1 && $arg1[0] == seq[i] && sfv.start <= i && i < sfv.end && sfv.end <= len(seq)
+//@   on-call Call#2 test-gets-item-then-key: len($arg1) == 2 && $arg1[0] == sfv.item && $arg1[1] == key
+//@   on-call Call#3 key-gets-window-element: len($arg1) == 1 && $arg1[0] == seq[i] && sfv.start <= i && i < sfv.end && sfv.end <= len(seq)
+//@   on-call Call#4 test-gets-item-then-key: len($arg1) == 2 && $arg1[0] == sfv.item && $arg1[1] == key
+//@   on-call ObjectEqual default-test-gets-item-then-key: $arg0 == sfv.item && $arg1 == key
+//@   requires start-nonneg: sfv.start >= 0
+//@   loop i<sfv.end: invariant counted: 0 <= count && sfv.start <= i && count <= i - sfv.start && sfv.end <= len(seq)
+//@   loop sfv.start<=i: invariant counted: 0 <= count && i < sfv.end && count <= sfv.end - 1 - i && sfv.end <= len(seq)
 
 // assoc / rassoc / member / adjoin: the two-argument test receives the item
 // first and the (keyed) element second.
